@@ -1,6 +1,7 @@
 package main
 
 import (
+	"time"
 	"strconv"
 	"math/rand"
 	"sort"
@@ -30,6 +31,30 @@ func main() {
 		os.Exit(cmdHelpers(os.Args[2:]))
 	case "conc":
 		os.Exit(cmdConc(os.Args[2:]))
+	case "disposereplay":
+		b, _ := os.ReadFile(os.Args[2])
+		dc, err := conc.ParseDCase(strings.Split(string(b), "\n"))
+		if err != nil {
+			fmt.Println(err)
+			os.Exit(2)
+		}
+		run := conc.ExecDispose(dc)
+		for _, f := range run.Failures {
+			fmt.Println("MONITOR C13:", f.Msg)
+		}
+		fmt.Println("checks", run.Checks, "subs", run.Subs)
+		if len(run.Failures) > 0 {
+			os.Exit(1)
+		}
+		os.Exit(0)
+	case "disposedbg":
+		per, _ := strconv.Atoi(os.Args[2])
+		cases, checks, tags, fails := conc.RunDispose(1, per, "/tmp/concout", "C13", nil)
+		fmt.Println(cases, checks, tags)
+		for _, f := range fails {
+			fmt.Println("FAIL", f.Msg, f.File)
+		}
+		os.Exit(0)
 	case "sweepchild":
 		seed, _ := strconv.ParseInt(os.Args[2], 10, 64)
 		samples, _ := strconv.Atoi(os.Args[3])
@@ -94,6 +119,23 @@ func cmdConc(args []string) int {
 	if *replay != "" && strings.HasSuffix(*replay, ".case") {
 		return cmdCore(args)
 	}
+	if *replay != "" && strings.HasSuffix(*replay, ".dcase") {
+		b, _ := os.ReadFile(*replay)
+		dc, err := conc.ParseDCase(strings.Split(string(b), "\n"))
+		if err != nil {
+			fmt.Println(err)
+			return 2
+		}
+		run := conc.ExecDispose(dc)
+		for _, f := range run.Failures {
+			fmt.Printf("MONITOR %s finding=%q: %s\n", *prop, conc.DisposeFinding(dc, f.Msg), f.Msg)
+		}
+		fmt.Println("checks", run.Checks, "outstanding subscriptions", run.Subs)
+		if len(run.Failures) > 0 {
+			return 1
+		}
+		return 0
+	}
 	if *replay != "" {
 		c, err := conc.LoadCase(*replay)
 		if err != nil {
@@ -145,7 +187,30 @@ func cmdConc(args []string) int {
 	if *corpus != "" {
 		dirs = strings.Split(*corpus, ",")
 	}
-	res := conc.RunPipeline(*prop, *seed, *tier, *driver, *out, *n, *search, dirs)
+	var res *core.Result
+	if *prop == "C13" {
+		per := 3
+		if *tier == "thorough" {
+			per = 25
+		}
+		if *search {
+			per *= 3
+		}
+		t0 := time.Now()
+		res = &core.Result{Prop: *prop, Seed: *seed, Tier: *tier, Tags: map[string]int{}, Ops: map[string]int{}, Results: map[string]int{}}
+		dcases, dchecks, dtags, dfails := conc.RunDispose(*seed, per, *out, *prop, dirs)
+		res.Cases, res.Evaluations = dcases, dchecks
+		for k, v := range dtags {
+			res.Tags["dispose:"+k] = v
+		}
+		for _, f := range dfails {
+			res.Failures = append(res.Failures, core.FailRec{Prop: *prop, Finding: f.Finding, Msg: f.Msg, File: f.File})
+		}
+		res.Extra = map[string]any{"dispose_cases": dcases, "dispose_checks": dchecks}
+		res.WallS = time.Since(t0).Seconds()
+	} else {
+		res = conc.RunPipeline(*prop, *seed, *tier, *driver, *out, *n, *search, dirs)
+	}
 	// sequential side
 	o, def := optsFor(*prop, *tier)
 	if *search {
